@@ -42,6 +42,8 @@ def run(tier):
         chk.clause('C08.xpand', '?LUMemXpand / ?expand failure and binding structure')
         for p in _drv.PRECS:
             expand.run(chk, 'C08.xpand', prog, p, cfgname)
+            expand.moved_block_extent_rule(chk, 'C08.xpand', prog, p, cfgname)
+            expand.usable_size_rule(chk, 'C08.xpand', prog, p, cfgname)
         chk.clause('C08.query', 'R3 oracle group `query` (lwork = -1) of ?gssvx / ?gsisx (D3)')
         nl = 0
         for p in _drv.PRECS:
